@@ -198,6 +198,116 @@ do_head(char **tok, bool isreq)
 	free(d);
 }
 
+// ------------------------------------------- HTTP heads through http_rd_buf
+static int raw_write_all(int fd, const uint8_t *p, size_t n);
+static void raw_write_cut(int fd, const uint8_t *d, size_t len, const size_t *cuts, int nc);
+
+// a connected pair: raw fd (returned) <-> nng tcp stream (*sp)
+static int
+tcp_pair(nng_stream **sp)
+{
+	nng_stream_listener *l   = NULL;
+	nng_aio             *aio = NULL;
+	int                  port = 0, fd = -1, one = 1;
+	struct sockaddr_in   sa = { .sin_family = AF_INET };
+
+	*sp = NULL;
+	if (nng_stream_listener_alloc(&l, "tcp://127.0.0.1:0") != 0) return -1;
+	nng_aio_alloc(&aio, NULL, NULL);
+	nng_aio_set_timeout(aio, 5000);
+	if (nng_stream_listener_listen(l) != 0 ||
+	    nng_stream_listener_get_int(l, NNG_OPT_BOUND_PORT, &port) != 0) goto out;
+	nng_stream_listener_accept(l, aio);
+	sa.sin_port        = htons((uint16_t) port);
+	sa.sin_addr.s_addr = htonl(INADDR_LOOPBACK);
+	fd                 = socket(AF_INET, SOCK_STREAM, 0);
+	setsockopt(fd, IPPROTO_TCP, TCP_NODELAY, &one, sizeof(one));
+	if (connect(fd, (struct sockaddr *) &sa, sizeof(sa)) != 0) {
+		close(fd);
+		fd = -1;
+		nng_aio_stop(aio);
+		goto out;
+	}
+	nng_aio_wait(aio);
+	if (nng_aio_result(aio) != 0) {
+		close(fd);
+		fd = -1;
+		goto out;
+	}
+	*sp = nng_aio_get_output(aio, 0);
+out:
+	nng_aio_free(aio);
+	nng_stream_listener_close(l);
+	nng_stream_listener_free(l);
+	return fd;
+}
+
+// hreq|hres <hex> <cuts>: the head is read by nni_http_read_req / nni_http_read_res from a
+// real connection (http_rd_buf with its 8 KiB buffer); the bytes arrive cut as requested
+static void
+do_hhead(char **tok, bool isreq)
+{
+	size_t      len, cuts[64];
+	uint8_t    *d  = unhex(tok[1], &len);
+	int         nc = parse_cuts(tok[2], cuts, 63, len);
+	nng_stream *st;
+	nng_http   *conn;
+	nng_aio    *aio;
+	nni_list   *hdrs;
+	http_header *h;
+	int         fd = tcp_pair(&st), rv, k = 0;
+
+	if (fd < 0) {
+		printf("%s rv=-1 nopair\n", isreq ? "hreq" : "hres");
+		free(d);
+		return;
+	}
+	nni_http_init(&conn, st, !isreq);
+	nng_aio_alloc(&aio, NULL, NULL);
+	nng_aio_set_timeout(aio, 3000);
+	if (isreq) {
+		nni_http_read_req(conn, aio);
+	} else {
+		nni_http_conn_reset(conn);
+		nni_http_read_res(conn, aio);
+	}
+	raw_write_cut(fd, d, len, cuts, nc);
+	usleep(2 * gap_us);
+	shutdown(fd, SHUT_WR);
+	nng_aio_wait(aio);
+	rv = nng_aio_result(aio);
+	if (rv != 0 && rv != NNG_EPROTO && rv != NNG_EMSGSIZE && rv != NNG_ENOTSUP) {
+		printf("%s rv=- incomplete(%d)\n", isreq ? "hreq" : "hres", rv);
+	} else {
+		printf("%s rv=%d status=%d meth=", isreq ? "hreq" : "hres", rv, (int) nni_http_get_status(conn));
+		puthex(nni_http_get_method(conn), strlen(nni_http_get_method(conn)));
+		printf(" uri=");
+		puthex(nni_http_get_uri(conn), strlen(nni_http_get_uri(conn)));
+		printf(" vers=");
+		puthex(nni_http_get_version(conn), strlen(nni_http_get_version(conn)));
+		printf(" reason=");
+		if (isreq) {
+			printf("-");
+		} else {
+			puthex(nni_http_get_reason(conn), strlen(nni_http_get_reason(conn)));
+		}
+		printf(" hdrs=");
+		hdrs = isreq ? &nni_http_conn_req(conn)->data.hdrs : &nni_http_conn_res(conn)->data.hdrs;
+		NNI_LIST_FOREACH (hdrs, h) {
+			if (k++) printf(",");
+			puthex(h->name, strlen(h->name));
+			printf(":");
+			puthex(h->value, strlen(h->value));
+		}
+		if (k == 0) printf("-");
+		printf("\n");
+	}
+	nng_aio_free(aio);
+	nni_http_conn_fini(conn);
+	close(fd);
+	free(d);
+}
+
 // --------------------------------------------------------- WebSocket loop
 typedef struct {
 	nng_mtx    *mtx;
@@ -798,6 +908,10 @@ main(int argc, char **argv)
 			do_head(tok, true);
 		} else if (strcmp(op, "res") == 0 && nt >= 3) {
 			do_head(tok, false);
+		} else if (strcmp(op, "hreq") == 0 && nt >= 3) {
+			do_hhead(tok, true);
+		} else if (strcmp(op, "hres") == 0 && nt >= 3) {
+			do_hhead(tok, false);
 		} else if (strcmp(op, "ws") == 0 && nt >= 10) {
 			do_ws(tok);
 		} else if (strcmp(op, "wssend") == 0 && nt >= 6) {
